@@ -66,6 +66,11 @@ def run_script(chk, prog, sim, up, get, script, key, expect_tags_fn):
                     chk.violation("C04.events", key + ":update-ret", "update returns %r for input %s" % (ret, cat), fn=up["pretty"], file=loc(up["span"]))
                     ok = False
                 post = sim.final_value(leaf.state, leaf.state.mem[oid])
+                lossy = N.lossy_ops(post)
+                if lossy:
+                    chk.violation("C04.value", "lossy-op", "update stores a value computed with a truncating integer operation %r (integer division/truncation of nanoseconds before the conversion to seconds)" % (lossy[0],),
+                                  fn=up["pretty"], file=loc(up["span"]))
+                    ok = False
                 bad = N.absolute_time_casts(post, is_time)
                 if bad:
                     chk.violation("C04.shift", "absolute-time", "PIDControllerStream::update converts an absolute timestamp to float (%r): the output depends on the time origin" % (bad[0],),
